@@ -12,9 +12,9 @@ use toml_edit::{Array, ArrayOfTables, InlineTable, Item, Key, Table, Value};
 
 pub struct C06;
 
-struct Builder<'a> {
-    rng: &'a mut Rng,
-    routes: Vec<&'static str>,
+pub struct Builder<'a> {
+    pub rng: &'a mut Rng,
+    pub routes: Vec<&'static str>,
 }
 
 impl<'a> Builder<'a> {
@@ -149,7 +149,7 @@ impl<'a> Builder<'a> {
     }
 
     /// a standard table; expected tree lists values first, then tables / arrays of tables
-    fn table(&mut self, t: &RTable, depth: usize) -> (Table, RVal) {
+    pub fn table(&mut self, t: &RTable, depth: usize) -> (Table, RVal) {
         let mut tb = Table::new();
         let mut vals: Vec<(String, RVal)> = Vec::new();
         let mut tabs: Vec<(String, RVal)> = Vec::new();
